@@ -1,6 +1,7 @@
 import Ufo2ftModel.Drv.Util
 import Ufo2ftModel.Spec.C08
 import Ufo2ftModel.Spec.C08Env
+import Ufo2ftModel.Spec.C08Filter
 namespace Ufo2ft.Drv.C08
 open Lean Ufo2ft.Drv Ufo2ft.C08
 
@@ -285,8 +286,39 @@ def closest (req : Json) : R Reply := do
   return { model := Json.mkObj [("defcon", m .defcon), ("ufoLib2", m .ufoLib2)],
            holds := holdsBounds exact bd bu && okc cd && okc cu && cd == cu }
 
+/-- op "origin": ONE TransformationsFilter instance called on several fonts.  in: `origin` (int), `dx dy sx sy` (Slant = 0),
+`fonts` [{upm, cap, xh : number | null}]; obs: {err} (constructor) | {fresh, shared : per font [h, xx, xy, yx, yy, dx, dy] -
+get_origin_height(font, options.Origin) and context.matrix after the call, of new instances / of the shared one; heights : per
+font get_origin_height(font, Origin(k)) for k = 0..4, asked of the shared instance} -/
+def origin (req : Json) : R Reply := do
+  let i ← field req "in"
+  let o ← field req "obs"
+  let fonts ← asList (fun j => do
+    return ({ unitsPerEm := ← asOpt asRat (← field j "upm"), capHeight := ← asOpt asRat (← field j "cap"),
+              xHeight := ← asOpt asRat (← field j "xh") } : HInfo)) (← field i "fonts")
+  match Origin.ofInt (← asInt (← field i "origin")) with
+  | .error e =>
+    let oe ← asOpt asStr (o.getObjValD "err")
+    return { model := Json.mkObj [("err", Json.str e)], holds := oe == some e }
+  | .ok og =>
+    let opts : TOpts := { origin := og, offsetX := ← asRat (← field i "dx"), offsetY := ← asRat (← field i "dy"),
+                          scaleX := ← asRat (← field i "sx"), scaleY := ← asRat (← field i "sy") }
+    let row : Option TCtx → List Q
+      | none => []
+      | some c => [c.height, c.matrix.xx, c.matrix.xy, c.matrix.yx, c.matrix.yy, c.matrix.dx, c.matrix.dy]
+    let rows := (session (TInst.new opts) fonts).1.map row
+    let all5 := fonts.map (fun f => [Origin.capHeight, .halfCapHeight, .xHeight, .halfXHeight, .baseline].map (fun k => originHeight k f))
+    let fresh ← asList (asList asRat) (← field o "fresh")
+    let shared ← asList (asList asRat) (← field o "shared")
+    let heights ← asList (asList asRat) (← field o "heights")
+    let okH := heights.length == fonts.length &&
+      (fonts.zip heights).all (fun p => holdsOriginHeights p.1.unitsPerEm p.1.capHeight p.1.xHeight p.2)
+    return { model := Json.mkObj [("rows", listJ (listJ ratJ) rows), ("heights", listJ (listJ ratJ) all5)],
+             holds := holdsOriginHistory fresh shared && okH }
+
 def handle (op : String) (req : Json) : R Reply :=
   match op with
+  | "origin" => origin req
   | "created" => created req
   | "closest" => closest req
   | "digests" => digests req
